@@ -579,6 +579,9 @@ let () =
       let lines = impl_lines impl k in
       List.iter (fun l -> if starts_with "H " l then
                     Printf.printf "FAIL %d hang the call did not return within 2 s (%s)\n" k head) lines;
+      (* the value an out-parameter held BEFORE the call was handed to free()/realloc() or written through *)
+      List.iter (fun l -> if starts_with "P " l then
+                    Printf.printf "FAIL %d out-parameter-read the library used what the caller's out-parameter held before the call: %s (%s)\n" k (after "P " l) head) lines;
       if oracle "C02" then
         List.iter (fun l -> if starts_with "L " l then
                       Printf.printf "FAIL %d leak %s allocation(s) of the library still live after the call (%s)\n" k (after "L " l) head) lines;
